@@ -70,11 +70,15 @@ impl<T: TokenStream> ParserBase<T> {
 
     #[inline]
     pub(crate) fn start_node(&mut self, kind: SyntaxKind) {
+        #[cfg(feature = "verif")]
+        crate::verif::step();
         self.builder.start_node(kind.into());
     }
 
     #[inline]
     pub(crate) fn start_node_at(&mut self, checkpoint: Checkpoint, kind: SyntaxKind) {
+        #[cfg(feature = "verif")]
+        crate::verif::step();
         self.builder.start_node_at(checkpoint, kind.into());
     }
 
